@@ -281,7 +281,10 @@ func (e *Engine) displayMultilinePrompts() {
 	if e.line.Lines() > 1 {
 		term.MoveCursorUp(e.lineRows)
 		term.MoveCursorBackwards(term.GetWidth())
-		e.prompt.MultilineColumnPrint()
+		rows := e.prompt.MultilineColumnPrint()
+
+		// Back to the last row of the line, wherever the column ended.
+		term.MoveCursorDown(e.lineRows - rows)
 	}
 
 	// Then if we have a line at all, rewrite the last column
